@@ -2,6 +2,8 @@
 """writes /tmp/seedprompts/ft<ID>.txt : brief for an independent sub-agent that ADDS small features near the code
 a property is anchored in WITHOUT breaking the property (false-alarm test of the checks on growing code)."""
 import json, sys, os
+PREFIX = os.environ.get('FT_PREFIX', 'ft')
+EXTRA = os.environ.get('FT_EXTRA', '')
 props = {json.loads(l)['id']: json.loads(l) for l in open('/verif/properties.jsonl')}
 T = '''You are helping to test a verification effort for the open-source Python project betcode-org/flumine (an event-driven sports-betting trading framework). You work ONLY inside the git worktree {wt} (a checkout of the project). Do not read or write anything under /verif or /repo. Python to use: /venv/bin/python. IMPORTANT: `flumine` is also installed from another directory; run pytest as `cd {wt} && /venv/bin/python -m pytest ...` (this imports the worktree copy).
 
@@ -13,7 +15,7 @@ QUANTIFIED OVER: {qtext}
 CODE THE PROPERTY IS ANCHORED IN: {files}
 MECHANISMS: {mech}
 
-YOUR TASK: implement THREE independent, small, realistic ENHANCEMENTS (A, B, C) in or right next to the code that implements this property — the kind of change that appears in this project's history all the time — such that each one, applied alone, leaves the property above fully intact (it must still hold for every input, history, schedule and fault) and keeps all existing behaviour that anything could rely on, except for the new feature itself when it is switched on / used. Each enhancement should be 8-40 changed lines and should touch the functions that make the property true (not only docs or unrelated files). Use different kinds for A, B and C, for example:
+YOUR TASK: implement THREE independent, small, realistic ENHANCEMENTS (A, B, C) in or right next to the code that implements this property — the kind of change that appears in this project's history all the time — such that each one, applied alone, leaves the property above fully intact (it must still hold for every input, history, schedule and fault) and keeps all existing behaviour that anything could rely on, except for the new feature itself when it is switched on / used. Each enhancement should be 8-40 changed lines and should touch the functions that make the property true (not only docs or unrelated files). {extra}Use different kinds for A, B and C, for example:
   - a new keyword argument / config option whose default keeps today's behaviour (and whose non-default value does not break the property either);
   - an extra field in an `info` dict / log record / event payload; an extra log line or metric counter; a new read-only property or query method on an existing class;
   - an additional sanity check that raises or logs for inputs that were already invalid; a clearer error message; a deprecation warning;
@@ -32,9 +34,9 @@ In your final message, summarise the three enhancements in two lines each. Do no
 os.makedirs('/tmp/seedprompts', exist_ok=True)
 for pid in sys.argv[1:]:
     p = props[pid]
-    wt = '/tmp/wt/ft' + pid.lower()
-    open('/tmp/seedprompts/ft%s.txt' % pid, 'w').write(T.format(
-        wt=wt, id=pid, title=p['title'], statement=p['statement'], qtext=p['quantifier']['text'],
+    wt = '/tmp/wt/' + PREFIX + pid.lower()
+    open('/tmp/seedprompts/%s%s.txt' % (PREFIX, pid), 'w').write(T.format(
+        wt=wt, extra=EXTRA, id=pid, title=p['title'], statement=p['statement'], qtext=p['quantifier']['text'],
         files=', '.join(p['anchors']['files']),
         mech='; '.join('%s (%s)' % (m['name'], m['where']) for m in p['anchors']['mechanism'])))
     print('wrote', pid)
